@@ -24,11 +24,6 @@ func init() {
 // a site is looked up only when it is reachable from that property's entry points.
 var kReasoned = map[string]string{
 	// ---- plugin registry: shapes fixed at registration (O18.1 checks every registration call site)
-	"index:(*core/plugin.factoryConstructor).NewPlugin:out[0]":                                                                                             "reflect.Value.Call of the factory returned by a registered factory constructor: O18.1 proves every registered factory has 1 or 2 results",
-	"index:(*core/plugin.factoryConstructor).callNewFactory:factoryAndMaybeErr[0]":                                                                         "reflect.Value.Call of a registered factory constructor: O18.1 proves 1 or 2 results",
-	"index:(*core/plugin.pluginConstructor).NewPlugin:out[0]":                                                                                              "reflect.Value.Call of a registered plugin constructor: O18.1 proves 1 or 2 results",
-	"index:(core/plugin.defaultConfigContainer).new:e.newValue.Call(nil)[0]":                                                                               "newValue is func() <config> (reflect.FuncOf with one result, or a default-config func whose type O18.1 checks): Call returns exactly one value",
-	"index:core/plugin.convertFactoryOutParams:out[0]":                                                                                                     "out is the result of calling a registered constructor/factory: at least one result (O18.1)",
 	"index:core/plugin.convertFactoryOutParams:out[1]":                                                                                                     "dominated by numOut < len(out) with numOut in {1,2} (the switch above panics otherwise): len(out) >= 2",
 	"abort:(*core/plugin.pluginConstructor).NewFactory$1:panic(err)":                                                                                       "documented (C18): a config error panics only when the requested factory type has no error result; every factory field of pandora's config structs has one (func() (core.Gun, error), func() (core.Schedule, error))",
 	"abort:(*core/plugin.pluginConstructor).NewFactory$1:panic(fmt.Sprintf(\" out params num expeced to be 1 or 2, but have: %v\", factoryType.NumOut()))": "unreachable arm: isFactoryType admits only 1 or 2 results",
